@@ -207,6 +207,7 @@ auto tdigest<T, A>::get_PMF(const T* split_points, uint32_t size) const -> vecto
 
 template<typename T, typename A>
 auto tdigest<T, A>::get_CDF(const T* split_points, uint32_t size) const -> vector_double {
+  if (is_empty()) throw std::runtime_error("operation is undefined for an empty sketch");
   check_split_points(split_points, size);
   vector_double ranks(get_allocator());
   ranks.reserve(size + 1);
